@@ -52,6 +52,22 @@ def helpers(ctx, pid):
     want = {(frozenset({(">", ("len", b), ("len", a))}), C(False)), (frozenset({(">=", ("len", a), ("len", b))}), allc)}
     alt = {(frozenset(), ("cmp", "==", ("slice", a, None, ("len", b)), b))}
     c = "prefix-test:key_starts_with"
+    if not (_symc(rows) == _symc(want) or _symc(rows) == _symc(alt)):
+        # third spelling: the `all(..)` written as a loop that leaves with False at the first differing pair and
+        # answers True when zip(full, partial) is exhausted (two rounds are looked at)
+        rows2 = set()
+        for p, st in pq.states(ctx, f, unroll=2):
+            if p.exit[0] == "return":
+                rows2.add((tuple(rel_norm(t, pol) or truth_norm(t, pol) for t, pol, _ in st.log), st.ret))
+        shorter, ok_len = (">", ("len", b), ("len", a)), (">=", ("len", a), ("len", b))
+
+        def pr(k, op):
+            e = ("iter", zipt, k)
+            return (op, ("sub", e, C(0)), ("sub", e, C(1)))
+        want2 = {((shorter,), C(False)), ((ok_len,), C(True)), ((ok_len, pr(0, "!=")), C(False)), ((ok_len, pr(0, "==")), C(True)),
+                 ((ok_len, pr(0, "=="), pr(1, "!=")), C(False)), ((ok_len, pr(0, "=="), pr(1, "==")), C(True))}
+        if _symc(rows2) == _symc(want2):
+            rows = want
     if _symc(rows) == _symc(want) or _symc(rows) == _symc(alt):
         ctx.ok(c, f.loc(), "key_starts_with(full, partial): False if full is shorter, else element-wise equality over zip(full, partial)")
     else:
